@@ -78,7 +78,10 @@ CHECKS = {
     category="proof",
     text="Proof within bounds, above the driver: for an operation accepted for submission, its buffer is not dropped while either the "
          "kernel's reference (returned only by the final completion) or the submitter's key exists — for cancel-before-completion, "
-         "completion-before-cancel, runtime (Proactor) drop before/after the key, in every order — and is dropped exactly once afterwards.",
+         "completion-before-cancel, runtime (Proactor) drop before/after the key, in every order — and is dropped exactly once afterwards. "
+         "In the polling configuration (keys via __verif::detached_key): the final completion reaches the operation's own "
+         "OpCode::set_result exactly once, with the driver's result, while the operation is alive, also when the submitter abandoned "
+         "it first, and what the completion handed to the operation is released with it.",
     design_ref="DESIGN.md §1 C01/C02/C05",
     note="Conditional on the drivers honouring 'one leaked reference per accepted submission, returned by exactly one final completion': "
          "iour/mod.rs, poll/mod.rs (FFI, HashMap, flume, kernel), zero-copy notification ordering, multishot, thread-pool FrozenKey and the "
@@ -105,6 +108,54 @@ CHECKS = {
     design_ref="DESIGN.md §1 C01/C02/C05",
     note="Promptness (the OS actually interrupting the operation) and the runtime-level routes (future drop, timeout combinators in "
          "compio-runtime) are outside; same conditions as C01."),
+ "C04": dict(
+    engine="mirsym",
+    technique="symbolic execution of the MIR of compio-executor's task layer (Task::run/cancel/drop/poll, <Task as Drop>::drop, "
+              "Local::poll, Remote::poll, State::*, the waker vtable; debug assertions compiled in) under every interleaving of a "
+              "bounded thread system, with the generic TaskAlloc<F> half replaced by a ghost resource model that every vtable "
+              "call is checked against; schedules enumerated by DFS (context-bounded for multi-operation programs)",
+    category="model_checking",
+    text="Bounded model checking over the real MIR, sequentially consistent, one task: executor thread (<= 4 ticks) x join-handle "
+         "owner on the same or on another thread (programs of poll / re-poll with another waker / await / drop / detach / "
+         "cancel-and-await) x a holder of a cloned task waker on another thread. In every explored interleaving: the future is "
+         "polled only on its home thread, only while the storage holds it and never by a tick that started after cancellation; it "
+         "is dropped exactly once, on the home thread; the output is taken by the handle or dropped exactly once; the join-waker "
+         "slot is never read/dropped uninitialised, never overwritten without a drop, never entered by two threads at once; the "
+         "allocation is freed exactly once, after the last reference, and never touched afterwards; none of the code's "
+         "debug_assert!s fires; a join handle that returned Pending is woken when the task completes.",
+    design_ref="DESIGN.md §1 C04",
+    note="Outside: Executor::clear/drop (teardown while wakers are used elsewhere), queue.rs (hot/cold lists, max_interval "
+         "fairness / starvation), panicking futures, more than one task, weak memory. Multi-operation programs are context-bounded "
+         "(2 preemptions quick, 3 thorough). One genuine defect found here was repaired (remote join lost wake-up, /repo fb8da0d)."),
+ "C08": dict(
+    engine="kani",
+    technique="bounded model checking of the compiled op implementations of both drivers in one build (Kani/CBMC): "
+              "IourOpCode::create_entry (SQE decoded via the kernel ABI layout) against PollOpCode::operate with rustix' private "
+              "syscall functions replaced by recording stubs; fd/offset/view/result are solver-chosen",
+    category="proof",
+    text="Proof within bounds, at the op layer: for ReadAt, WriteAt, Read, Write on a heap buffer view of capacity 8 with symbolic "
+         "fd, offset, length and view bounds, the io_uring submission entry and the polling driver's syscall are the same request "
+         "(kind, fd, pointer, length, offset), that request is exactly the buffer contract (reads: the whole writable region; "
+         "writes: exactly the initialized bytes, never more), the syscall's byte count is returned unchanged, an OS error is "
+         "returned unchanged, would-block parks the op on the right fd/direction and EINTR is retried.",
+    design_ref="DESIGN.md §1 C08/C14",
+    note="What the kernel does with the request (file contents afterwards, append semantics, ordering of concurrent ops, EOF) is "
+         "kernel behaviour and outside, as are compio-fs above the ops, the vectored/managed variants, and the submission/"
+         "completion machinery (see C01/C02). Stubs: rustix::backend::io::syscalls::{pread,pwrite,read,write}."),
+ "C14": dict(
+    engine="kani",
+    technique="bounded model checking of the compiled socket op implementations of both drivers in one build (Kani/CBMC): "
+              "IourOpCode::create_entry (SQE decoded) against PollOpCode::operate with rustix::backend::net::syscalls::{recv,send} "
+              "replaced by recording stubs; fd/flags/view/result are solver-chosen",
+    category="proof",
+    text="Proof within bounds, at the op layer: for Recv and Send on a heap buffer view of capacity 8 with symbolic fd, flags "
+         "and view bounds, the io_uring submission entry and the polling driver's syscall are the same request (fd, pointer, "
+         "length, flags) and equal the buffer contract (recv: the whole writable region, send: exactly the initialized bytes); "
+         "the syscall's byte count is returned unchanged.",
+    design_ref="DESIGN.md §1 C08/C14",
+    note="Stream ordering, datagram boundaries, accept/connect uniqueness, shutdown and peer-close behaviour are kernel behaviour "
+         "or need live sockets and are outside; so are RecvFrom/SendTo/RecvMsg/SendMsg, vectored, managed, zero-copy and multishot "
+         "variants and compio-net above the ops."),
  "C09": dict(
     engine="mirsym",
     technique="symbolic execution of rustc's MIR of compio-runtime/src/time/runtime.rs (own interpreter, regenerated per run) with "
@@ -115,12 +166,20 @@ CHECKS = {
          "wake / min_timeout / is_completed / update_waker / poll_timer satisfies: a timer stays pending iff deadline > now (never "
          "early, always fires), its waker is woken exactly once, min_timeout never exceeds the distance to the nearest deadline, "
          "cancel leaves nothing behind and touches nothing else, the invariant is preserved; the derived Ord of TimerKey equals the "
-         "lexicographic order the map summary uses. Histories of any length follow by induction on the invariant.",
+         "lexicographic order the map summary uses. Histories of any length follow by induction on the invariant. "
+         "Future layer on the same wheel: Sleep::new holds no timer iff the deadline has passed, otherwise a pending timer with "
+         "exactly that deadline; Sleep::poll is Ready iff its timer is no longer pending and otherwise registers the task's waker; "
+         "dropping a timer future removes exactly its key; Timeout::poll yields the inner output iff the inner future is ready and "
+         "Elapsed only when the timer is no longer pending; the Interval::tick state machine (coroutine MIR, <= 2 polls) returns "
+         "start on the first tick and afterwards an instant in (now, now+period] with next - start = multiple of the period + period, "
+         "armed as exactly one timer, never completing before it fired.",
     design_ref="DESIGN.md §1 C09",
     note="Summaries (BTreeMap, Instant, Waker contracts) are assumptions; the interpreter is validated each run against the natively "
          "compiled runtime.rs (real clock) on seeded random histories; counterexamples are converted to histories and replayed "
-         "natively (boundary-only ones, deadline == now, cannot be and are reported on the solver's verdict). Outside: driver timeout "
-         "precision, Interval::tick's coroutine, Timeout/Sleep wrappers (planned), std's BTreeMap implementation."),
+         "natively at three real-time scales (boundary-only ones, deadline == now, cannot be and are reported on the solver's "
+         "verdict). Interval: instants/periods < 2^62 ns, period > 0, the u128 remainder abstracted to r < period with "
+         "elapsed = multiple + r (exact 128-bit remainder: z3 unknown). Outside: driver timeout precision, argument overflow of "
+         "timeout()/sleep(), std's BTreeMap implementation."),
  "C03": dict(
     engine="mirsym",
     technique="symbolic execution of the MIR of the wake-up protocols (AwakeFlag, Notify::wake_by_ref, Driver::poll/flush of both "
@@ -133,12 +192,42 @@ CHECKS = {
          "kernel-facing call inside Driver::poll replaced by a listed summary: in no interleaving does the runtime thread park in "
          "the kernel wait while work published by a waker that has returned is unserviced. (2) executor layer: Remote::schedule "
          "against the executor loop (drain_sync, State::unschedule, poll) with queue capacity 1-2 and a symbolic initial task "
-         "state word: the task is always polled again, the waker is invoked only after the id is queued, `pending` never drops "
-         "below the queue length nor underflows, a waker spinning on a full queue is always released.",
+         "state word, one waker exhaustively and two wakers (same task / two tasks on a full queue) with at most 2 (thorough: 3) "
+         "preemptive switches: the task is always polled again, the driver waker is notified after the id is queued, `pending` "
+         "never drops below the queue length nor underflows, a waker spinning on a full queue is always released.",
     design_ref="DESIGN.md §1 C03",
     note="NOT covered: weak-memory reorderings (the model is SC although the code uses Release/Acquire/AcqRel), block_on's loop "
          "skeleton, compio-compat's event loops, crossbeam's ArrayQueue internals, > 2 wakers, queue sizes > 2. Counterexamples "
-         "are schedules over the real MIR; they cannot be replayed step-exactly on OS threads (no scheduling hooks in /repo)."),
+         "are schedules over the real MIR; they cannot be replayed step-exactly on OS threads (no scheduling hooks in /repo). One "
+         "genuine defect found here was repaired (full-queue wake notified too early, /repo f239df3)."),
+ "C17": dict(
+    engine="mirsym",
+    technique="symbolic execution of the MIR of AsyncifyPool::dispatch / worker / CounterGuard::drop under every interleaving of "
+              "dispatching threads and spawned workers (flume channel and thread::spawn summarised); schedules enumerated by DFS",
+    category="model_checking",
+    text="Bounded model checking over the real MIR: 1-2 dispatching threads x 1-2 jobs, thread_limit 1 (thorough: 2), every "
+         "spawned worker a logical thread, idle timeouts either long or arbitrary: "
+         "jobs running at once never exceed the limit, every accepted job runs exactly once, a rejected job comes back intact and "
+         "does not run, no dispatcher gets stuck, a job submitted after workers retired still runs; the same with two concurrent "
+         "dispatchers and with idle timeouts that may fire at any moment.",
+    design_ref="DESIGN.md §1 C17",
+    note="flume, thread::spawn, Box/Arc plumbing are assumptions (coverage.summaries); SC atomics; panic transport and the "
+         "driver's completion channel are outside. Two genuine defects found here were repaired (/repo 186dec9, db2ede8)."),
+ "C07": dict(
+    engine="mirsym",
+    technique="symbolic execution of the MIR of the fallback buffer pool (BufferPool/Shared/BufferRef + fallback BufControl, closures "
+              "bound by span) as one inductive step per operation from every well-formed pool state; z3 decides the symbolic len/cap data",
+    category="model_checking",
+    text="Bounded model checking over the real MIR (fallback pool, N = 3/4 buffers): from every presence pattern, queue order and "
+         "set of live handles satisfying the ownership invariant, pop() hands out exactly the free buffer at the queue's front with "
+         "len 0 / full capacity and never one that a live handle holds, reports exhaustion as an error exactly when nothing is free "
+         "(no panic, no wait); dropping a handle returns exactly its buffer to its slot and its id to the queue once; a handle "
+         "outliving the pool frees its own memory exactly once; present slots + live handles = N after every step; "
+         "set_capacity/set_len keep len <= cap <= full_cap and the views expose exactly cap / len bytes of the handle's own buffer.",
+    design_ref="DESIGN.md §1 C07",
+    note="Only the fallback (polling) pool: the io_uring buffer ring (mmap, register_buf_ring, kernel buffer selection), the managed "
+         "ops and the multishot stream adapter need a live kernel and are outside, as are direct calls of the public take(id)/"
+         "reset(id) on the fallback pool (not among the property's programs)."),
 }
 
 NOT_APPLICABLE = {
@@ -203,7 +292,7 @@ def main():
         f.write("\n")
 
 
-HOOK_COMMITS = ["fe7f040"]
+HOOK_COMMITS = ["fe7f040", "ba00e96"]
 
 if __name__ == "__main__":
     main()
